@@ -1292,6 +1292,14 @@ class HistModel(c02.CappedModel):
                           'expected %s' % (self.schema.name, hist, op, got, exp), exp, got)
             return False
         if got.endswith('Exception'):
+            # a rejected call: the model is as before (C02), and so must the counts be -- judged here, because the state
+            # merges with the one before the call and is not visited again
+            ctx.count('history_rejected_calls_compared')
+
+            def bad(kind, msg, e=None, g=None):
+                ctx.violation('c11:after-rejected-call:%s' % kind, self.case(hist, op),
+                              'shape %s after the history %s and the rejected call %s: %s' % (self.schema.name, hist, op, msg), e, g)
+            compare(ctx, w.m, self.schema, w.ref, reader(self.schema, w.ref, w.vals), bad, light=True)
             return False
         return True
 
@@ -1346,6 +1354,7 @@ E_CAPS = {
     'g_assoc_class': ({'A': 1, 'B': 1, 'C': 2}, {'A': 2, 'B': 1, 'C': 2}),
     'g2_reflexive_assoc_class': ({'A': 2, 'C': 1}, {'A': 2, 'C': 2}),
     'h_subsuper': ({'P': 1, 'S1': 1, 'S2': 1}, {'P': 2, 'S1': 1, 'S2': 1}),
+    'k_1_1': ({'A': 2, 'B': 1}, {'A': 2, 'B': 2}),
 }
 
 
@@ -1370,7 +1379,7 @@ def e_seeds(name):
 
 def e_models(ctx):
     out = []
-    for s in schemas.shapes([PAYLOAD]):
+    for s in schemas.shapes([PAYLOAD]) + [schemas.by_name('k_1_1', [PAYLOAD])]:
         caps = E_CAPS[s.name][0 if ctx.quick else 1]
         out.append(HistModel(s, caps, e_seeds(s.name)))
     return out
